@@ -46,6 +46,27 @@ _CMPOPS = {ast.Eq: '==', ast.NotEq: '!=', ast.Lt: '<', ast.LtE: '<=', ast.Gt: '>
            ast.IsNot: 'is not', ast.In: 'in', ast.NotIn: 'not in'}
 
 
+# parameter names of the library callables the repository passes keyword arguments to (or might): positional and keyword
+# spellings of one call become one term
+LIB_PARAMS = {
+    'DHParameterNumbers': ['p', 'g', 'q'], 'DHPublicNumbers': ['y', 'parameter_numbers'],
+    'EllipticCurvePublicNumbers': ['x', 'y', 'curve'], 'HMAC': ['key', 'msg', 'digestmod'], 'hmac.new': ['key', 'msg', 'digestmod'],
+    'from_bytes': ['bytes', 'byteorder'], 'to_bytes': ['length', 'byteorder'], 'ciphers.Cipher': ['algorithm', 'mode', 'backend'],
+    'generate_private_key': ['curve', 'backend'], 'public_key': ['backend'], 'parameters': ['backend'],
+    'socket.socket': ['family', 'type', 'proto'], 'ip_network': ['address', 'strict'], 'randint': ['a', 'b'],
+    'urandom': ['size'],
+}
+
+
+def lib_params(lib, name):
+    if lib is None:
+        return None
+    for k, v in LIB_PARAMS.items():
+        if lib == k or lib.endswith('.' + k) or (name == k and lib.startswith('method.')):
+            return v
+    return None
+
+
 def const(v):
     return ('const', type(v).__name__, v)
 
@@ -890,6 +911,8 @@ class SVal:
         if isinstance(callee, str) and callee.startswith('builtin.'):
             callee = 'builtins.' + callee[8:]
             lib = callee
+        if params is None and isinstance(callee, str):
+            params = lib_params(callee, name)
         bound = []
         for i, t in enumerate(args):
             if params is not None and i < len(params) and t[0] != 'star':
@@ -1116,7 +1139,8 @@ def show(t, depth=0):
     if k == 'add':
         return ' + '.join(s(x) for x in t[1])
     if k == 'bin':
-        return '(%s %s %s)' % (s(t[2]), t[1], s(t[3]))
+        par = lambda x: '(%s)' % s(x) if x[0] == 'add' else s(x)
+        return '(%s %s %s)' % (par(t[2]), t[1], par(t[3]))
     if k == 'not':
         return 'not (%s)' % s(t[1])
     if k == 'cmp':
